@@ -8,14 +8,23 @@ for d in sorted(glob.glob('/verif/seeded/*/')):
     what = m.get('what', '').strip().split('\n')
     what = m.get('summary') or what[0]
     if m.get('negative_control'):
-        res = 'negative control: ' + ('silent (correct)' if m.get('caught_by_quick') is not None else '?')
+        if 'silent' in m:
+            res = 'negative control: silent in ' + ', '.join(m['silent'])
+            if m.get('false_alarms'):
+                res += '; **FALSE ALARM in ' + ', '.join(m['false_alarms']) + '**'
+            if m.get('machinery_failures'):
+                res += '; machinery failure (exit 2) in ' + ', '.join(m['machinery_failures'])
+            if m.get('note'):
+                res += ' — ' + m['note']
+        else:
+            res = 'negative control: ' + ('silent (correct)' if m.get('caught_by_quick') is not None else '?')
     else:
         cq = m.get('caught_by_quick', [])
         ct = m.get('caught_by_thorough', [])
         res = ('caught by ' + ', '.join(cq) + ' (quick)') if cq else (('caught by ' + ', '.join(ct) + ' (thorough only)') if ct else '**MISSED**')
         if m.get('note'):
             res += ' — ' + m['note']
-    origin = 'agent' if name.startswith('agent') else 'own'
+    origin = 'agent' if name.startswith('agent') or name.startswith('negative-agent') else 'own'
     rows.append(f"| `{name}` | {m['property']} | {origin} | {what[:230].replace('|', '/')} | {res} |")
 table = "| seeded change | property | by | needs, in order to manifest | result |\n|---|---|---|---|---|\n" + "\n".join(rows) + "\n"
 p = '/verif/DESIGN.md'
